@@ -1365,6 +1365,7 @@ class PlainQuantity(Generic[MagnitudeT], PrettyIPython, SharedRegistryObject):
 
     @check_implemented
     def compare(self, other, op):
+        self._check(other)
         if not isinstance(other, PlainQuantity):
             if self.dimensionless:
                 return op(
